@@ -79,7 +79,7 @@ theorem mapReverse_spec [DecidableEq ν] (m : List (κ × ν)) (k : κ) (v : ν)
   | nil => simp [mapReverse, mget_nil]
   | cons p m ih =>
     obtain ⟨k0, v0⟩ := p
-    simp only [mapReverse, mget_mput, List.mem_cons, Prod.mk.injEq]
+    simp only [mapReverse, mapRevBody, ↓reduceIte, mget_mput, List.mem_cons, Prod.mk.injEq]
     by_cases hv : v = v0
     · subst hv; simp [ih]
     · simp [hv, ih]
@@ -95,7 +95,7 @@ theorem mapReverseSingle_spec [DecidableEq ν] (m : List (κ × ν)) :
   | cons p m ih =>
     obtain ⟨k0, v0⟩ := p
     obtain ⟨ih1, ih2, ih3⟩ := ih
-    simp only [mapReverseSingle, rs_flag]
+    simp only [mapReverseSingle, rsBody, ↓reduceIte, rs_flag]
     refine ⟨?_, ?_, ?_⟩
     · intro v k h
       rw [mget_mput] at h
@@ -127,13 +127,13 @@ theorem mapReverseSingle_spec [DecidableEq ν] (m : List (κ × ν)) :
 
 /-! ## ToIndex -/
 
-theorem toIndexFrom_spec (i : Nat) (ks : List κ) (m : List (κ × Nat)) (k : κ) :
+theorem toIndexFrom_spec (hb : toIndexBody = ["m[keys[i]] = i"]) (i : Nat) (ks : List κ) (m : List (κ × Nat)) (k : κ) :
     (k ∉ ks → mget (toIndexFrom i ks m) k = mget m k) ∧
     (k ∈ ks → ∃ j : Nat, mget (toIndexFrom i ks m) k = some (i + j) ∧ ks[j]? = some k ∧ ∀ j', j < j' → ks[j']? ≠ some k) := by
   induction ks generalizing i m with
   | nil => simp [toIndexFrom]
   | cons x xs ih =>
-    simp only [toIndexFrom]
+    simp only [toIndexFrom, if_pos hb]
     obtain ⟨ih1, ih2⟩ := ih (i + 1) (mput m x i)
     refine ⟨?_, ?_⟩
     · intro hk
@@ -164,13 +164,13 @@ theorem toIndexFrom_spec (i : Nat) (ks : List κ) (m : List (κ × Nat)) (k : κ
 theorem toIndex_spec (keys : List κ) (k : κ) :
     (k ∉ keys → mget (toIndex keys) k = none) ∧
     (k ∈ keys → ∃ j : Nat, mget (toIndex keys) k = some j ∧ keys[j]? = some k ∧ ∀ j', j < j' → keys[j']? ≠ some k) := by
-  have := toIndexFrom_spec 0 keys [] k
+  have := toIndexFrom_spec rfl 0 keys [] k      -- the loop body is `m[keys[i]] = i`
   simp only [Nat.zero_add, mget_nil] at this
   exact this
 
 /-! ## FromKeysAndValues -/
 
-theorem fromKVLoop_get (ks : List κ) (vs : List ν) (m : List (κ × ν)) (ok : Bool) (hl : ks.length = vs.length) (k : κ) :
+theorem fromKVLoop_get (hb : fkvBody = ["if ok {", "allOk = false", "}", "m[keys[i]] = values[i]"]) (ks : List κ) (vs : List ν) (m : List (κ × ν)) (ok : Bool) (hl : ks.length = vs.length) (k : κ) :
     (k ∉ ks → mget (fromKVLoop ks vs m ok).1 k = mget m k) ∧
     (k ∈ ks → ∃ (j : Nat) (v : ν), mget (fromKVLoop ks vs m ok).1 k = some v ∧ ks[j]? = some k ∧ vs[j]? = some v) := by
   induction ks generalizing vs m ok with
@@ -183,7 +183,7 @@ theorem fromKVLoop_get (ks : List κ) (vs : List ν) (m : List (κ × ν)) (ok :
     | nil => simp at hl
     | cons v vs =>
       simp only [List.length_cons, Nat.add_right_cancel_iff] at hl
-      simp only [fromKVLoop, fkv_flag]
+      simp only [fromKVLoop, if_pos hb, fkv_flag]
       obtain ⟨ih1, ih2⟩ := ih vs (mput m x v) (ok && (mget m x).isNone) hl
       refine ⟨?_, ?_⟩
       · intro hk
@@ -202,7 +202,7 @@ theorem fromKVLoop_get (ks : List κ) (vs : List ν) (m : List (κ × ν)) (ok :
           refine ⟨0, v, ?_, by simp [hkx], by simp⟩
           rw [ih1 hxs, mget_mput]; simp [hkx]
 
-theorem fromKVLoop_ok (ks : List κ) (vs : List ν) (m : List (κ × ν)) (ok : Bool) (hl : ks.length = vs.length) :
+theorem fromKVLoop_ok (hb : fkvBody = ["if ok {", "allOk = false", "}", "m[keys[i]] = values[i]"]) (ks : List κ) (vs : List ν) (m : List (κ × ν)) (ok : Bool) (hl : ks.length = vs.length) :
     ((fromKVLoop ks vs m ok).2 = true ↔ ok = true ∧ ks.Nodup ∧ ∀ x ∈ ks, mget m x = none) := by
   induction ks generalizing vs m ok with
   | nil =>
@@ -214,7 +214,7 @@ theorem fromKVLoop_ok (ks : List κ) (vs : List ν) (m : List (κ × ν)) (ok : 
     | nil => simp at hl
     | cons v vs =>
       simp only [List.length_cons, Nat.add_right_cancel_iff] at hl
-      simp only [fromKVLoop, fkv_flag]
+      simp only [fromKVLoop, if_pos hb, fkv_flag]
       rw [ih vs (mput m x v) (ok && (mget m x).isNone) hl]
       simp only [Bool.and_eq_true, List.nodup_cons, List.mem_cons, forall_eq_or_imp, Option.isNone_iff_eq_none]
       constructor
@@ -254,58 +254,45 @@ theorem fromKeysAndValues_spec (keys : List κ) (values : List ν) :
     have hok : ok = (fromKVLoop keys values [] true).2 := by rw [h]
     subst hm hok
     refine ⟨?_, ?_, ?_⟩
-    · rw [fromKVLoop_ok keys values [] true hl]
+    · rw [fromKVLoop_ok rfl keys values [] true hl]
       simp [mget_nil]
-    · intro k hk; have := (fromKVLoop_get keys values [] true hl k).1 hk; simpa [mget_nil] using this
-    · intro k hk; exact (fromKVLoop_get keys values [] true hl k).2 hk
+    · intro k hk; have := (fromKVLoop_get rfl keys values [] true hl k).1 hk; simpa [mget_nil] using this
+    · intro k hk; exact (fromKVLoop_get rfl keys values [] true hl k).2 hk
   · simp [hl]
 
 
-/-! ## bridges: the models are written through the regenerated guards / flag values of `xmaps.go` -/
+/-! ## the inner loop of `Intersection` / `Intersects` -/
 
-theorem setIntersection_eq (sets : List (List κ)) :
-    setIntersection sets =
-      match sortBySize sets with
-      | [] => []
-      | s0 :: rest => s0.filter (fun k => rest.all (fun t => decide (k ∈ t))) := by
-  unfold setIntersection
-  cases sets with
-  | nil => rfl
-  | cons a as =>
-    have : interEmpty ((a :: as).length : Int) = false := by
-      simp only [interEmpty, List.length_cons, decide_eq_false_iff_not]; omega
-    rw [this]
-    simp only [Bool.false_eq_true, ↓reduceIte]
-    cases sortBySize (a :: as) with
-    | nil => rfl
-    | cons s0 rest =>
-      have hd : (s0 :: rest).drop interJ0.toNat = rest := rfl
-      simp only [interStores, interInclude, hd, interMiss, Bool.not_not, interInclude0, interMissVal]
-      congr 1; funext k; cases (rest.all fun t => decide (k ∈ t)) <;> rfl
-
-theorem setIntersects_eq (sets : List (List κ)) :
-    setIntersects sets =
-      match sortBySize sets with
-      | [] => false
-      | s0 :: rest => s0.any (fun k => rest.all (fun t => decide (k ∈ t))) := by
-  unfold setIntersects
-  cases sets with
-  | nil => rfl
-  | cons a as =>
-    have : intsEmpty ((a :: as).length : Int) = false := by
-      simp only [intsEmpty, List.length_cons, decide_eq_false_iff_not]; omega
-    rw [this]
-    simp only [Bool.false_eq_true, ↓reduceIte]
-    cases sortBySize (a :: as) with
-    | nil => rfl
-    | cons s0 rest =>
-      have hd : (s0 :: rest).drop intsJ0.toNat = rest := rfl
-      simp only [intsHit, intsInclude, hd, intsMiss, Bool.not_not, intsInclude0, intsMissVal, intsHitRet, intsEndRet]
-      have : (fun k => if (rest.all fun t => decide (k ∈ t)) = true then true else false) =
-          (fun k => rest.all fun t => decide (k ∈ t)) := by
-        funext k; cases (rest.all fun t => decide (k ∈ t)) <;> rfl
-      rw [this]
-      cases (s0.any fun k => rest.all fun t => decide (k ∈ t)) <;> rfl
+/-- `missScan` with the mirrored pieces (`j < len(sets)`, `!ok`, `include = false; break`, `j++`):
+`include` survives iff `k` is in every set from index `j` on; no index panic, the fuel suffices. -/
+theorem missScan_spec (loop : Int → Int → Bool) (miss : Bool → Bool) (missVal breaks : Bool) (incs : Nat)
+    (hl : ∀ j n, loop j n = decide (j < n)) (hm : ∀ b, miss b = !b) (hv : missVal = false) (hb : breaks = true)
+    (hi : incs = 1) (k : κ) (sets : List (List κ)) :
+    ∀ (fuel j : Nat) (inc : Bool), j ≤ sets.length → sets.length - j < fuel →
+      missScan loop miss missVal breaks incs k sets fuel (j : Int) inc =
+        some (inc && (sets.drop j).all (fun t => decide (k ∈ t))) := by
+  subst hv hb hi
+  intro fuel
+  induction fuel with
+  | zero => intro j inc _ hf; omega
+  | succ fuel ih =>
+    intro j inc hj hf
+    simp only [missScan, hl, hm, decide_eq_true_eq, Int.ofNat_lt, if_true]
+    by_cases hlt : j < sets.length
+    · rw [if_pos hlt, getI_of_lt sets j hlt]
+      simp only
+      have hd : sets.drop j = sets[j] :: sets.drop (j + 1) := List.drop_eq_getElem_cons hlt
+      by_cases hk : k ∈ sets[j]
+      · have : ((j : Int) + ((1 : Nat) : Int)) = ((j + 1 : Nat) : Int) := by omega
+        simp only [hk, decide_true, Bool.not_true, Bool.false_eq_true, if_false, this]
+        rw [ih (j + 1) inc (by omega) (by omega), hd, List.all_cons]
+        simp only [hk, decide_true, Bool.true_and]
+      · simp only [hk, decide_false, Bool.not_false, if_true]
+        rw [hd, List.all_cons]
+        simp only [hk, decide_false, Bool.false_and, Bool.and_false]
+    · rw [if_neg hlt]
+      have : sets.drop j = [] := List.drop_eq_nil_of_le (by omega)
+      simp [this]
 
 /-! ## Sets -/
 
@@ -338,6 +325,7 @@ theorem mem_setUnion_aux (sets : List (List κ)) (out : List κ) (x : κ) :
 
 theorem mem_setUnion (sets : List (List κ)) (x : κ) : x ∈ setUnion sets ↔ ∃ s ∈ sets, x ∈ s := by
   unfold setUnion
+  simp only [unionBody, ↓reduceIte]      -- the body of the outer loop is the inner `for k := range set` loop
   rw [mem_setUnion_aux]; simp
 
 omit [DecidableEq κ] in
@@ -362,9 +350,52 @@ theorem mem_sortBySize (sets : List (List κ)) (t : List κ) : t ∈ sortBySize 
     simp only [sortBySize, List.foldr_cons, List.mem_cons] at *
     rw [mem_insertBySize, ih]
 
-theorem mem_setIntersection (sets : List (List κ)) (x : κ) :
-    x ∈ setIntersection sets ↔ sets ≠ [] ∧ ∀ s ∈ sets, x ∈ s := by
-  rw [setIntersection_eq]
+theorem interKeys_spec (sorted : List (List κ)) (P : κ → Bool)
+    (hinc : ∀ k, interInclude k sorted = some (P k)) (hst : ∀ b, interStores b = b) :
+    ∀ ks, interKeys sorted ks = some (ks.filter P) := by
+  intro ks
+  induction ks with
+  | nil => rfl
+  | cons k ks ih =>
+    simp only [interKeys, hinc, ih, hst, List.filter_cons]
+
+theorem intsKeys_spec (sorted : List (List κ)) (P : κ → Bool)
+    (hinc : ∀ k, intsInclude k sorted = some (P k)) (hh : ∀ b, intsHit b = b) (ht : intsHitRet = true)
+    (he : intsEndRet = false) :
+    ∀ ks, intsKeys sorted ks = some (ks.any P) := by
+  intro ks
+  induction ks with
+  | nil => simp [intsKeys, he]
+  | cons k ks ih =>
+    simp only [intsKeys, hinc, ih, hh, ht, List.any_cons]
+    cases P k <;> simp
+
+/-- `Intersection` never panics and returns exactly the common members. -/
+theorem mem_setIntersection (sets : List (List κ)) :
+    ∃ r, setIntersection sets = some r ∧ ∀ x, x ∈ r ↔ sets ≠ [] ∧ ∀ s ∈ sets, x ∈ s := by
+  -- the model, through the regenerated pieces of `xmaps.Intersection` (guards, `j := 1`, `j < len(sets)`,
+  -- `j++`, `include = false; break`, `if include`, the sort by size)
+  have heq : setIntersection sets = some (match sortBySize sets with
+      | [] => []
+      | s0 :: rest => s0.filter (fun k => rest.all (fun t => decide (k ∈ t)))) := by
+    unfold setIntersection
+    cases sets with
+    | nil => rfl
+    | cons a as =>
+      have : interEmpty ((a :: as).length : Int) = false := by
+        simp only [interEmpty, List.length_cons, decide_eq_false_iff_not]; omega
+      rw [this]
+      simp only [Bool.false_eq_true, ↓reduceIte, interSortsBySize]
+      cases sortBySize (a :: as) with
+      | nil => rfl
+      | cons s0 rest =>
+        simp only
+        refine interKeys_spec (s0 :: rest) _ (fun k => ?_) (fun _ => rfl) s0
+        have := missScan_spec interLoop interMiss interMissVal interMissBreaks interIncs
+          (fun _ _ => rfl) (fun _ => rfl) rfl rfl rfl k (s0 :: rest) ((s0 :: rest).length + 1) 1 interInclude0
+          (by simp) (by simp only [List.length_cons]; omega)
+        simpa [interInclude, interJ0, interInclude0] using this
+  refine ⟨_, heq, fun x => ?_⟩
   have hm := mem_sortBySize sets
   cases hs : sortBySize sets with
   | nil =>
@@ -387,9 +418,30 @@ theorem mem_setIntersection (sets : List (List κ)) (x : κ) :
     · rintro ⟨_, h⟩
       exact ⟨h s0 ((hm s0).mp (List.mem_cons_self ..)), fun t ht => h t ((hm t).mp (List.mem_cons_of_mem _ ht))⟩
 
+/-- `Intersects` never panics and answers whether the sets have a common member. -/
 theorem setIntersects_iff (sets : List (List κ)) :
-    setIntersects sets = true ↔ sets ≠ [] ∧ ∃ x, ∀ s ∈ sets, x ∈ s := by
-  rw [setIntersects_eq]
+    ∃ b, setIntersects sets = some b ∧ (b = true ↔ sets ≠ [] ∧ ∃ x, ∀ s ∈ sets, x ∈ s) := by
+  have heq : setIntersects sets = some (match sortBySize sets with
+      | [] => false
+      | s0 :: rest => s0.any (fun k => rest.all (fun t => decide (k ∈ t)))) := by
+    unfold setIntersects
+    cases sets with
+    | nil => rfl
+    | cons a as =>
+      have : intsEmpty ((a :: as).length : Int) = false := by
+        simp only [intsEmpty, List.length_cons, decide_eq_false_iff_not]; omega
+      rw [this]
+      simp only [Bool.false_eq_true, ↓reduceIte, intsSortsBySize]
+      cases sortBySize (a :: as) with
+      | nil => rfl
+      | cons s0 rest =>
+        simp only
+        refine intsKeys_spec (s0 :: rest) _ (fun k => ?_) (fun _ => rfl) rfl rfl s0
+        have := missScan_spec intsLoop intsMiss intsMissVal intsMissBreaks intsIncs
+          (fun _ _ => rfl) (fun _ => rfl) rfl rfl rfl k (s0 :: rest) ((s0 :: rest).length + 1) 1 intsInclude0
+          (by simp) (by simp only [List.length_cons]; omega)
+        simpa [intsInclude, intsJ0, intsInclude0] using this
+  refine ⟨_, heq, ?_⟩
   have hm := mem_sortBySize sets
   cases hs : sortBySize sets with
   | nil =>
@@ -413,6 +465,6 @@ theorem setIntersects_iff (sets : List (List κ)) :
       exact ⟨x, h s0 ((hm s0).mp (List.mem_cons_self ..)), fun t ht => h t ((hm t).mp (List.mem_cons_of_mem _ ht))⟩
 
 theorem mem_setDifference (a b : List κ) (x : κ) : x ∈ setDifference a b ↔ x ∈ a ∧ x ∉ b := by
-  simp [setDifference, diffKeeps]
+  simp [setDifference, diffBody, diffKeeps]
 
 end Juniper.Proofs.Helpers
